@@ -168,9 +168,14 @@ func c03Literals(p *Program, r *Report, hs []*ssa.Function, ds []decision, bcs [
 			}
 		}
 		objVals, hasObj := d.fields["Object"]
+		perKey := isPerKeyDecision(d)
 		switch {
+		case isObj && !hasObj && hasPerKeySibling(d, ds, acts):
+			r.Ok("R-C03-2", d.key+".Object", pos, "bucket-level pre-check; the per-object decision is taken by a per-key VerifyAccess loop in the same handler (R-C03-3)")
 		case isObj && !hasObj:
 			r.Viol("R-C03-2", d.key+".Object", pos, "object-level action "+strings.Join(acts, "|")+" decided without naming the object (decision is per bucket)")
+		case hasObj && perKey != nil:
+			r.Ok("R-C03-2", d.key+".Object", pos, "Object is an element of the request list decoded by "+calleeName(perKey))
 		case !isObj && hasObj:
 			r.Viol("R-C03-2", d.key+".Object", pos, "bucket-level action "+strings.Join(acts, "|")+" decided with an Object (policy resource kind mismatch)")
 		case hasObj:
@@ -181,14 +186,29 @@ func c03Literals(p *Program, r *Report, hs []*ssa.Function, ds []decision, bcs [
 			r.Ok("R-C03-2", d.key+".Object", pos, "bucket-level action without Object")
 		}
 		gbs := guarded[d.key]
+		if perKey != nil {
+			// a decision inside a loop cannot dominate by its success edge; it is
+			// tied to the backend calls that receive the same decoded list
+			for _, bc := range bcs {
+				if bc.fn != d.fn || !mayPrecede(d.call, bc.call) {
+					continue
+				}
+				for _, rt := range argRoots(bc.call) {
+					if rt.Kind == "call" && rt.Call == ssa.CallInstruction(perKey) {
+						gbs = append(gbs, bc)
+						break
+					}
+				}
+			}
+		}
 		if len(gbs) == 0 {
 			r.Viol("R-C03-2", d.key+".guards", pos, "this access decision is not the guard of any backend call (dead or misplaced decision)")
 			continue
 		}
 		for _, bc := range gbs {
 			ex := handlerShort(bc.fn) + "/" + bc.method
-			if ex == "PutActions/GetBucketPolicy" {
-				continue // auxiliary read inside the governance-bypass test
+			if _, aux := c03Aux[ex]; aux {
+				continue // auxiliary read behind a stricter decision on the same bucket
 			}
 			row, ok := tAction[bc.method]
 			k := d.key + "->" + bc.method
@@ -226,7 +246,9 @@ func c03Literals(p *Program, r *Report, hs []*ssa.Function, ds []decision, bcs [
 				same = true
 			}
 			r.Check(same, "R-C03-2", k+".sameBucket", p.Pos(bc.call.Pos()), "decision and backend call name the same ctx.Params(\"bucket\")", "the backend call's arguments do not originate from the ctx.Params(\"bucket\") the decision was taken for")
-			if row.object && hasObj {
+			if row.object && hasObj && perKey != nil {
+				r.Ok("R-C03-2", k+".sameKey", p.Pos(bc.call.Pos()), "decision and backend call take their keys from the same decoded request list")
+			} else if row.object && hasObj {
 				kc := callRootInstrs(Origins(objVals[0], nil), fiberCtx+".Params", "key")
 				same := false
 				for c := range callRootInstrs(ar, fiberCtx+".Params", "key") {
@@ -238,6 +260,53 @@ func c03Literals(p *Program, r *Report, hs []*ssa.Function, ds []decision, bcs [
 			}
 		}
 	}
+}
+
+// isPerKeyDecision: the decision sits in a loop and its Object is an element of a
+// list filled by a decoder call (xml.Unmarshal(body, &cell)); returns that call.
+func isPerKeyDecision(d decision) *ssa.Call {
+	ov, has := d.fields["Object"]
+	if !has {
+		return nil
+	}
+	inLoop := false
+	for _, s := range d.call.Block().Succs {
+		if reachable(d.fn, s, nil)[d.call.Block()] {
+			inLoop = true
+		}
+	}
+	if !inLoop {
+		return nil
+	}
+	elem := false
+	var dec *ssa.Call
+	for _, rt := range Origins(ov[0], nil) {
+		if rt.Kind == "elem" {
+			elem = true
+		}
+		if rt.Kind == "call" && strings.HasSuffix(rt.Desc, "(&cell)") {
+			if c, ok := rt.Call.(*ssa.Call); ok {
+				dec = c
+			}
+		}
+	}
+	if !elem {
+		return nil
+	}
+	return dec
+}
+
+func hasPerKeySibling(d decision, ds []decision, acts []string) bool {
+	for _, o := range ds {
+		if o.fn != d.fn || o.call == d.call || isPerKeyDecision(o) == nil {
+			continue
+		}
+		oa, _ := constNames(nil, first(o.fields["Action"]))
+		if strings.Join(oa, "|") == strings.Join(acts, "|") && mayPrecede(d.call, o.call) {
+			return true
+		}
+	}
+	return false
 }
 
 // R-C03-3: batch delete decided per key.
